@@ -1228,6 +1228,68 @@ C03.sym_violation = _sym_violation
 
 # --------------------------------------------------------------------------
 
+LIT_DRIVER = os.path.join(HERE, "driver_lit.janet")
+
+
+def part_literals(c):
+    """Operators compiled with a number literal as an operand (immediate opcodes) against every x of a small number
+    universe and a few non-numbers: must agree with numeric order (numbers), with the first-class function forms and
+    with cmp (everything)."""
+    chk = c.chk
+    ints = sorted(set(list(range(-131, -124)) + list(range(-4, 5)) + list(range(124, 132)) + [255, 256, -255, -256, -257,
+                      32767, 32768, -32768, -32769, 2 ** 31 - 1, -2 ** 31, 2 ** 31, 65535]))
+    lits = [(str(i), float(i)) for i in ints] + [("0.5", 0.5), ("-0.5", -0.5), ("-0.0", -0.0), ("1e10", 1e10), ("-1e10", -1e10),
+                                                 ("127.5", 127.5), ("-128.5", -128.5)]
+    xs_num = lits + [("math/inf", float("inf")), ("math/-inf", float("-inf")), ("9007199254740992", 2.0 ** 53),
+                     ("-9007199254740992", -2.0 ** 53), ("(+ 0.1 0.2)", 0.1 + 0.2)]
+    xs_other = ['"a"', ":k", "'s", "nil", "true", "false", "[1]", "{:a 1}", '@"b"', "(int/s64 5)", "(int/s64 -5)", "(int/s64 -1)",
+                "(int/u64 5)", "(int/s64 -128)", "(int/u64 200)"]
+    xs = [t for t, _ in xs_num] + xs_other
+    items = ["{:lit %s :xs [%s]}" % (jdn(t), " ".join(jdn(x) for x in xs)) for t, _ in lits]
+    res = run_batch("fast", LIT_DRIVER, items, chunk=4, timeout=120)
+    names = ["(< x L)", "(<= x L)", "(> x L)", "(>= x L)", "(= x L)", "(not= x L)",
+             "(< L x)", "(<= L x)", "(> L x)", "(>= L x)", "(= L x)", "(not= L x)"]
+    for (lt, lv), (status, text) in zip(lits, res):
+        if status != "OK":
+            chk.violation("literal-operand:%s" % status.lower(), "operators with the literal %s as an operand: %s %s" % (lt, status, text[:300]),
+                          replay_text="# see props/C03/driver_lit.janet, item {:lit %s}\n" % jdn(lt))
+            continue
+        rows = text.strip().strip('"').split("|")[:-1]
+        if len(rows) != len(xs):
+            raise HarnessError("literal part: %d rows for %d operands" % (len(rows), len(xs)))
+        for k, (xt, row) in enumerate(zip(xs, rows)):
+            chk.add(evaluations=25, transitions=1, states=1)
+            inl, fnv, cmpv = row[:12], row[12:24], int(row[24]) - 1
+            chk.outcome(("lit", inl, cmpv))
+            want = None
+            if k < len(xs_num):
+                xv = xs_num[k][1]
+                rel = [xv < lv, xv <= lv, xv > lv, xv >= lv, xv == lv, xv != lv, lv < xv, lv <= xv, lv > xv, lv >= xv, lv == xv, lv != xv]
+                want = "".join("1" if r else "0" for r in rel)
+            bad = None
+            if want is not None and inl != want:
+                bad = ("numeric", want)
+            elif inl != fnv:
+                bad = ("function-form", fnv)
+            else:
+                sign = ["1" if r else "0" for r in (cmpv < 0, cmpv <= 0, cmpv > 0, cmpv >= 0, cmpv == 0, cmpv != 0)]
+                if inl[:6] != "".join(sign):
+                    bad = ("cmp", "".join(sign))
+            if bad:
+                i = next(i for i in range(len(bad[1])) if inl[i] != bad[1][i])
+                form = names[i].replace("L", lt).replace("x", xt)
+                chk.part("literals", law_failures=1)
+                chk.violation("literal-operand:%s:%s" % (bad[0], names[i].split()[0].strip("(")),
+                              "%s compiled with the literal gives %s, but the %s relation says %s (x = %s, literal %s; "
+                              "all twelve forms inline %s, reference %s)" % (
+                                  form, inl[i] == "1", bad[0], inl[i] != "1", xt, lt, inl, bad[1]),
+                              replay_text="(def x %s)\n(printf \"%%q inline, %%q as a function value, (cmp x %s) = %%q\" %s ((fn [f a b] (f a b)) %s x %s) (cmp x %s))\n" % (
+                                  xt, lt, names[i].replace("L", lt), names[i].split()[0].strip("("), lt, lt)
+                              if i < 6 else "(def x %s)\n(printf \"%%q inline, (cmp %s x) = %%q\" %s (cmp %s x))\n" % (xt, lt, names[i].replace("L", lt), lt),
+                              replay_cmd="janet <this file>")
+    chk.part("literals", literals=len(lits), operands=len(xs), forms=12)
+
+
 def main():
     chk = Check("C03")
     chk.rule("value universe (numbers incl. -0, 2^31 and 2^53 neighbourhoods, infinities; byte strings as string/"
@@ -1277,6 +1339,8 @@ def main():
         timed("struct_dups", part_struct_dups, c, sets)
     if want("tuples"):
         timed("tuples", part_tuples, c)
+    if want("literals"):
+        timed("literals", part_literals, c)
     if want("symbols"):
         timed("symbols_deep", part_symbols, c, "deep")
     if c.unconfirmed:
